@@ -3,4 +3,510 @@ import GoRes.Model.Req
 namespace GoRes.Req
 open GoRes
 
+/-! ## byte-level facts -/
+@[simp] theorem isPre_obj (ms : List (Str × Str)) : isPre (obj ms) = false := by
+  simp [isPre, obj, List.isPrefixOf]
+@[simp] theorem isPre_withMeta (ms : List (Str × Str)) (m : Option Str) : isPre (withMeta ms m) = false := by
+  simp [withMeta]
+@[simp] theorem isPre_respError (c msg : Str) (m : Option Str) : isPre (respError c msg m) = false := by
+  simp [respError]
+@[simp] theorem isPre_respResult (v : Str) (m : Option Str) : isPre (respResult v m) = false := by
+  simp [respResult]
+@[simp] theorem isPre_missing : isPre missingResponse = false := by simp [missingResponse]
+@[simp] theorem isPre_timeout (x : Str) : isPre (b!"timeout:\"" ++ x) = true := by
+  simp [isPre, List.isPrefixOf]
+@[simp] theorem evSubj_ne_reply (r : ReqIn) (n : Str) : evSubj r n ≠ replySubj := by
+  simp [evSubj, replySubj]
+@[simp] theorem conn_ne_reply (c : Str) : b!"conn." ++ c ++ b!".token" ≠ replySubj := by
+  simp [replySubj]
+
+/-! ## state algebra -/
+theorem emit_eq_addAll (s : St) (e : Eff) : emit s e = addAll s [e] := rfl
+@[simp] theorem addAll_addAll (s : St) (a b : List Eff) : addAll (addAll s a) b = addAll s (a ++ b) := by
+  simp [addAll]
+theorem addAll_nil (s : St) : addAll s [] = s := by simp [addAll]
+@[simp] theorem addAll_effs (s : St) (a : List Eff) : (addAll s a).effs = s.effs ++ a := rfl
+@[simp] theorem addAll_replied (s : St) (a : List Eff) : (addAll s a).replied = s.replied := rfl
+@[simp] theorem addAll_mt (s : St) (a : List Eff) : (addAll s a).mt = s.mt := rfl
+theorem ite_addAll (c : Prop) [Decidable c] (s : St) (x : List Eff) :
+    (if c then s else addAll s x) = addAll s (if c then [] else x) := by
+  split <;> simp [addAll_nil]
+theorem svcEvent_none (s : St) (subj : Str) : svcEvent s subj none = addAll s [.pub subj []] := rfl
+theorem svcEvent_some (s : St) (subj : Str) (v : JV) :
+    svcEvent s subj (some v) = addAll s (if v.ok then [.pub subj v.text] else []) := by
+  simp only [svcEvent]; split <;> simp [emit_eq_addAll, addAll_nil]
+theorem svcEvent_eq (s : St) (subj : Str) (p : Option JV) :
+    svcEvent s subj p = addAll s (match p with
+      | none => [.pub subj []] | some v => if v.ok then [.pub subj v.text] else []) := by
+  cases p <;> simp [svcEvent_none, svcEvent_some]
+
+@[simp] theorem stepSt_cont (s : St) : stepSt (.cont s) = s := rfl
+@[simp] theorem stepSt_panic (s : St) (p : PanicV) : stepSt (.panic s p) = s := rfl
+@[simp] theorem stepSt_strPanic (s : St) (w : String) : stepSt (strPanic s w) = s := rfl
+
+/-! ## what one step can do -/
+
+/-- structure of a response payload; `m0` is the meta object it may carry -/
+inductive RespShape (m0 : Option Str) : Str → Prop
+  | result (v : Str) (m : Option Str) : (m = none ∨ m = m0) → RespShape m0 (withMeta [(b!"result", v)] m)
+  | resource (rid : Str) (m : Option Str) : (m = none ∨ m = m0) → isValidRIDB rid = true →
+      RespShape m0 (withMeta [(b!"resource", refObj rid)] m)
+  | error (c msg : Str) (m : Option Str) : (m = none ∨ m = m0) → RespShape m0 (withMeta [(b!"error", errObj c msg)] m)
+
+theorem RespShape.isPre {m0 : Option Str} {p : Str} (h : RespShape m0 p) : isPre p = false := by
+  cases h <;> simp
+
+/-- an effect that is not a response -/
+inductive Aux (r : ReqIn) : Eff → Prop
+  | apply (k : String) : Aux r (.apply k)
+  | listener (i : Nat) (n : Str) : Aux r (.listener i n)
+  | ev (name payload : Str) :
+      (name ∈ [b!"change", b!"add", b!"remove", b!"create", b!"delete", b!"reaccess"] ∨
+        (isValidPartB name = true ∧ name ∉ reserved)) → Aux r (.pub (evSubj r name) payload)
+  | tok (payload : Str) : Aux r (.pub (b!"conn." ++ r.cid ++ b!".token") payload)
+  | pre (ms : Int) : 0 ≤ ms → Aux r (.pub replySubj (b!"timeout:\"" ++ intText ms ++ [34]))
+
+def AllAux (r : ReqIn) (es : List Eff) : Prop := ∀ e ∈ es, Aux r e
+
+@[simp] theorem allAux_nil (r : ReqIn) : AllAux r [] := by simp [AllAux]
+@[simp] theorem allAux_cons (r : ReqIn) (e : Eff) (es : List Eff) : AllAux r (e :: es) ↔ Aux r e ∧ AllAux r es := by
+  simp [AllAux]
+@[simp] theorem allAux_append (r : ReqIn) (a b : List Eff) : AllAux r (a ++ b) ↔ AllAux r a ∧ AllAux r b := by
+  simp only [AllAux, List.mem_append]
+  constructor
+  · intro h; exact ⟨fun e he => h e (Or.inl he), fun e he => h e (Or.inr he)⟩
+  · rintro ⟨h1, h2⟩ e (he | he)
+    · exact h1 e he
+    · exact h2 e he
+@[simp] theorem allAux_ite (r : ReqIn) (c : Prop) [Decidable c] (a b : List Eff) :
+    AllAux r (if c then a else b) ↔ (c → AllAux r a) ∧ (¬ c → AllAux r b) := by
+  split <;> simp [*]
+@[simp] theorem allAux_listeners (r : ReqIn) (cfg : HCfg) (n : Str) : AllAux r (listenersOf cfg n) := by
+  simp only [AllAux, listenersOf, List.mem_map]
+  rintro e ⟨i, _, rfl⟩; exact .listener i n
+
+/-- the possible effects of one step on the state -/
+inductive Next (r : ReqIn) (s : St) : St → Prop
+  | same : Next r s s
+  | reply (p : Str) : s.replied = false → RespShape (metaOf s) p →
+      Next r s { s with replied := true, effs := s.effs ++ [.pub replySubj p] }
+  | aux (es : List Eff) : AllAux r es → Next r s (addAll s es)
+  | setMeta (mt : Meta) : r.isHTTP = true → s.replied = false → Next r s { s with mt := mt }
+
+theorem next_reply (r : ReqIn) (s : St) (p : Str) (h : RespShape (metaOf s) p) : Next r s (stepSt (reply s p)) := by
+  unfold reply
+  by_cases hr : s.replied = true
+  · simp [hr]; exact .same
+  · simp [hr]; exact .reply p (by simpa using hr) h
+
+theorem next_success (r : ReqIn) (s : St) (v : JV) (m : Option Str) (hm : m = none ∨ m = metaOf s) :
+    Next r s (stepSt (success s v m)) := by
+  unfold success
+  split
+  · exact next_reply _ _ _ (.result _ _ hm)
+  · exact next_reply _ _ _ (.error _ _ _ (Or.inl rfl))
+
+
+@[simp] theorem aux_apply (r : ReqIn) (k : String) : Aux r (.apply k) := .apply k
+@[simp] theorem aux_tok (r : ReqIn) (p : Str) : Aux r (.pub (b!"conn." ++ r.cid ++ b!".token") p) := .tok p
+@[simp] theorem aux_ev_std (r : ReqIn) (name p : Str)
+    (h : name ∈ [b!"change", b!"add", b!"remove", b!"create", b!"delete", b!"reaccess"]) :
+    Aux r (.pub (evSubj r name) p) := .ev _ _ (Or.inl h)
+
+theorem reserved_contains_false {name : Str} (h : reserved.contains name = false) : name ∉ reserved := by
+  simpa using h
+
+theorem act_next (cfg : HCfg) (r : ReqIn) (s : St) (a : Action) : Next r s (stepSt (act cfg r s a)) := by
+  cases a with
+  | ok v =>
+    simp only [act]
+    cases v with
+    | none =>
+      cases hm : metaOf s with
+      | none => exact next_reply _ _ _ (.result _ _ (Or.inl rfl))
+      | some m => exact next_success _ _ _ _ (Or.inr hm.symm)
+    | some v => exact next_success _ _ _ _ (Or.inr rfl)
+  | resource rid =>
+    simp only [act]
+    split
+    · exact .same
+    · exact next_reply _ _ _ (.resource _ _ (Or.inr rfl) (by rename_i h; simpa using h))
+  | error e => cases e <;> exact next_reply _ _ _ (.error _ _ _ (Or.inr rfl))
+  | notFound => exact next_reply _ _ _ (.error _ _ _ (Or.inr rfl))
+  | methodNotFound => exact next_reply _ _ _ (.error _ _ _ (Or.inr rfl))
+  | invalidParams msg => exact next_reply _ _ _ (.error _ _ _ (Or.inr rfl))
+  | invalidQuery msg => exact next_reply _ _ _ (.error _ _ _ (Or.inr rfl))
+  | accessDenied => exact next_reply _ _ _ (.error _ _ _ (Or.inr rfl))
+  | accessGranted => exact next_reply _ _ _ (.result _ _ (Or.inr rfl))
+  | access get call =>
+    simp only [act]
+    split
+    · exact next_reply _ _ _ (.error _ _ _ (Or.inr rfl))
+    · exact next_reply _ _ _ (.result _ _ (Or.inr rfl))
+  | model v query =>
+    simp only [act]
+    split
+    · exact next_reply _ _ _ (.result _ _ (Or.inl rfl))
+    · exact next_reply _ _ _ (.error _ _ _ (Or.inl rfl))
+  | collection v query =>
+    simp only [act]
+    split
+    · exact next_reply _ _ _ (.result _ _ (Or.inl rfl))
+    · exact next_reply _ _ _ (.error _ _ _ (Or.inl rfl))
+  | new rid =>
+    simp only [act]
+    split
+    · exact .same
+    · exact next_reply _ _ _ (.result _ _ (Or.inl rfl))
+  | timeout ms =>
+    simp only [act]
+    split
+    · exact .same
+    · exact .aux [_] (by simp; exact .pre _ (by omega))
+  | change props =>
+    simp only [act, emit_eq_addAll, ite_addAll, svcEvent_some, addAll_addAll]
+    split
+    · exact .same
+    split
+    · exact .same
+    split <;> simp only [stepSt_cont, stepSt_panic] <;> refine .aux _ ?_ <;>
+      simp
+  | add v idx =>
+    simp only [act, emit_eq_addAll, ite_addAll, svcEvent_some, addAll_addAll]
+    split
+    · exact .same
+    split
+    · exact .same
+    split <;> simp only [stepSt_cont, stepSt_panic] <;> refine .aux _ ?_ <;>
+      simp
+  | remove idx =>
+    simp only [act, emit_eq_addAll, ite_addAll, svcEvent_some, addAll_addAll]
+    split
+    · exact .same
+    split
+    · exact .same
+    split <;> simp only [stepSt_cont, stepSt_panic] <;> refine .aux _ ?_ <;>
+      simp
+  | create v =>
+    simp only [act, emit_eq_addAll, ite_addAll, svcEvent_none, addAll_addAll]
+    split <;> simp only [stepSt_cont, stepSt_panic] <;> refine .aux _ ?_ <;>
+      simp
+  | delete =>
+    simp only [act, emit_eq_addAll, ite_addAll, svcEvent_none, addAll_addAll]
+    split <;> simp only [stepSt_cont, stepSt_panic] <;> refine .aux _ ?_ <;>
+      simp
+  | custom name payload =>
+    simp only [act, svcEvent_eq, addAll_addAll]
+    split
+    · exact .same
+    split
+    · exact .same
+    rename_i h1 h2
+    refine .aux _ ?_
+    have h3 : ∀ x, Aux r (.pub (evSubj r name) x) := fun x =>
+      .ev _ _ (Or.inr ⟨by simpa using h2, by simpa using h1⟩)
+    cases payload <;> simp [h3]
+  | reaccess => exact .aux [_] (by simp)
+  | tokenEvent v =>
+    simp only [act, svcEvent_some, stepSt_cont]
+    refine .aux _ ?_
+    simp only [allAux_ite, allAux_cons, allAux_nil, and_true, implies_true]
+    intro _; exact .tok _
+  | setStatus code =>
+    simp only [act]
+    split
+    · exact .same
+    split
+    · exact .same
+    exact .setMeta _ (by rename_i h _; simpa using h) (by rename_i h; simpa using h)
+  | header k v =>
+    simp only [act]
+    split
+    · exact .same
+    split
+    · exact .same
+    exact .setMeta _ (by rename_i h _; simpa using h) (by rename_i h; simpa using h)
+  | panic p => exact .same
+  | parseParams b =>
+    simp only [act]
+    split
+    · exact .same
+    · split <;> exact .same
+
+
+/-! ## scripts -/
+theorem runScript_ind (cfg : HCfg) (r : ReqIn) (P : St → Prop)
+    (hstep : ∀ s a, P s → P (stepSt (act cfg r s a))) (script : List Action) :
+    ∀ s, P s → P (stepSt (runScript cfg r s script)) := by
+  induction script with
+  | nil => intro s h; exact h
+  | cons a as ih =>
+    intro s h
+    have h1 := hstep s a h
+    simp only [runScript]
+    cases hs : act cfg r s a with
+    | cont s' => rw [hs] at h1; exact ih s' h1
+    | panic s' p => rw [hs] at h1; exact h1
+
+theorem runScript_next (cfg : HCfg) (r : ReqIn) (P : St → Prop)
+    (hstep : ∀ s s', Next r s s' → P s → P s') (script : List Action) (s : St) (h : P s) :
+    P (stepSt (runScript cfg r s script)) :=
+  runScript_ind cfg r P (fun s a hs => hstep s _ (act_next cfg r s a) hs) script s h
+
+/-! ## responses -/
+theorem responses_append (a b : List Eff) : responses (a ++ b) = responses a ++ responses b := by
+  simp [responses]
+theorem responses_reply (p : Str) (h : isPre p = false) : responses [.pub replySubj p] = [p] := by
+  simp [responses, h]
+theorem Aux.not_response {r : ReqIn} {e : Eff} (h : Aux r e) : responses [e] = [] := by
+  cases h <;> simp [responses, replySubj, isPre, List.isPrefixOf, evSubj]
+theorem responses_allAux {r : ReqIn} {es : List Eff} (h : AllAux r es) : responses es = [] := by
+  induction es with
+  | nil => rfl
+  | cons e es ih =>
+    rw [allAux_cons] at h
+    rw [← List.singleton_append, responses_append, h.1.not_response, ih h.2]; rfl
+
+/-- the reply invariant -/
+def ReplyInv (s : St) : Prop := (responses s.effs).length = if s.replied then 1 else 0
+
+theorem Next.inv {r : ReqIn} {s s' : St} (h : Next r s s') (hi : ReplyInv s) : ReplyInv s' := by
+  cases h with
+  | same => exact hi
+  | reply p hr hp =>
+    simp only [ReplyInv, responses_append, responses_reply p hp.isPre, hr] at hi ⊢
+    simp [hi]
+  | aux es hes =>
+    show (responses (s.effs ++ es)).length = if s.replied then 1 else 0
+    rw [responses_append, responses_allAux hes, List.append_nil]; exact hi
+  | setMeta mt _ _ => exact hi
+
+theorem Next.after_reply {r : ReqIn} {s s' : St} (h : Next r s s') (hr : s.replied = true) :
+    responses s'.effs = responses s.effs ∧ s'.replied = true := by
+  cases h with
+  | same => exact ⟨rfl, hr⟩
+  | reply p hr' hp => simp [hr] at hr'
+  | aux es hes => simp [responses_append, responses_allAux hes, hr]
+  | setMeta mt _ hr' => simp [hr] at hr'
+
+theorem Next.extends {r : ReqIn} {s s' : St} (h : Next r s s') : ∃ d, s'.effs = s.effs ++ d := by
+  cases h with
+  | same => exact ⟨[], by simp⟩
+  | reply p hr' hp => exact ⟨_, rfl⟩
+  | aux es hes => exact ⟨_, rfl⟩
+  | setMeta mt _ hr' => exact ⟨[], by simp⟩
+
+theorem Next.meta_http {r : ReqIn} {s s' : St} (h : Next r s s') (hh : r.isHTTP = false) : s'.mt = s.mt := by
+  cases h with
+  | same => rfl
+  | reply p hr' hp => rfl
+  | aux es hes => rfl
+  | setMeta mt h' hr' => simp [hh] at h'
+
+/-! ## `process` -/
+/-- the request as the handler sees it: an empty payload leaves the fields at their zero value -/
+def normReq (r : ReqIn) : ReqIn :=
+  if r.payload = .empty then { r with cid := [], isHTTP := false, rawParams := none, token := none, query := [] } else r
+
+/-- end of `executeHandler` -/
+def finish : Step → List Eff
+  | .cont s => if s.replied then s.effs else s.effs ++ [.pub replySubj missingResponse]
+  | .panic s p => (recoverArm s p).effs
+
+def seen0 (kind : String) (r : ReqIn) : St := { effs := [.seen (encSeen kind r)] }
+
+theorem process_eq (cfg : HCfg) (r : ReqIn) (script : List Action) :
+    process cfg r script =
+      if !r.found then [.pub replySubj (respError codeNotFound (b!"Not found") none)]
+      else if r.payload = .bad then [.pub replySubj (respError codeInternal goErr none)]
+      else match pick cfg (normReq r) with
+        | .noReplyAtAll => []
+        | .none => []
+        | .reply p => [.pub replySubj p]
+        | .invoke kind => finish (runScript cfg (normReq r) (seen0 kind (normReq r)) script) := by
+  rfl
+
+@[simp] theorem normReq_rtype (r : ReqIn) : (normReq r).rtype = r.rtype := by unfold normReq; split <;> rfl
+@[simp] theorem normReq_rname (r : ReqIn) : (normReq r).rname = r.rname := by unfold normReq; split <;> rfl
+@[simp] theorem normReq_method (r : ReqIn) : (normReq r).method = r.method := by unfold normReq; split <;> rfl
+theorem normReq_ok (r : ReqIn) (h : r.payload = .ok) : normReq r = r := by simp [normReq, h]
+theorem normReq_of_ne_empty (r : ReqIn) (h : r.payload ≠ .empty) : normReq r = r := by simp [normReq, h]
+theorem normReq_isHTTP (r : ReqIn) (h : (normReq r).isHTTP = true) : r.isHTTP = true ∧ r.payload ≠ .empty := by
+  unfold normReq at h; split at h
+  · simp at h
+  · exact ⟨h, ‹_›⟩
+
+@[simp] theorem metaOf_seen0 (kind : String) (r : ReqIn) : metaOf (seen0 kind r) = none := by
+  simp [metaOf, seen0, Meta.render]
+
+theorem finish_cases (st : Step) :
+    ((stepSt st).replied = true ∧ finish st = (stepSt st).effs) ∨
+    ((stepSt st).replied = false ∧ ∃ p, RespShape (metaOf (stepSt st)) p ∧
+      finish st = (stepSt st).effs ++ [.pub replySubj p]) := by
+  cases st with
+  | cont s =>
+    by_cases hr : s.replied = true
+    · left; simp [finish, hr]
+    · right; simp only [finish, hr, stepSt_cont]
+      exact ⟨by simp, _, .error _ _ _ (Or.inl rfl), rfl⟩
+  | panic s p =>
+    by_cases hr : s.replied = true
+    · left; simp [finish, recoverArm, hr]
+    · right; simp only [finish, recoverArm, hr, stepSt_panic]
+      refine ⟨by simp, ?_⟩
+      cases p with
+      | err e => cases e <;> exact ⟨_, .error _ _ _ (Or.inr rfl), rfl⟩
+      | lib => exact ⟨_, .error _ _ _ (Or.inr rfl), rfl⟩
+      | str m => exact ⟨_, .error _ _ _ (Or.inr rfl), rfl⟩
+      | other m => exact ⟨_, .error _ _ _ (Or.inr rfl), rfl⟩
+
+theorem pick_spec (cfg : HCfg) (r : ReqIn) :
+    (pick cfg r = .noReplyAtAll ∧ r.rtype = .access ∧ cfg.hasAccess = false) ∨
+    (∃ c m, pick cfg r = .reply (respError c m none)) ∨ (∃ k, pick cfg r = .invoke k) := by
+  unfold pick
+  split
+  · rename_i h; by_cases ha : cfg.hasAccess = true <;> simp [ha, h]
+  · split <;> simp
+    exact ⟨_, _, rfl⟩
+  · split
+    · simp
+    split
+    · simp
+    split
+    · simp
+    · right; left; exact ⟨_, _, rfl⟩
+  · split
+    · simp
+    split
+    · simp
+    · right; left; exact ⟨_, _, rfl⟩
+
+/-- the three ways a request ends -/
+theorem process_cases (cfg : HCfg) (r : ReqIn) (script : List Action) :
+    (Unanswered cfg r ∧ process cfg r script = []) ∨
+    (¬ Unanswered cfg r ∧ ∃ p, RespShape none p ∧ process cfg r script = [.pub replySubj p]) ∨
+    (¬ Unanswered cfg r ∧ ∃ kind, r.found = true ∧ r.payload ≠ .bad ∧ pick cfg (normReq r) = .invoke kind ∧
+      process cfg r script = finish (runScript cfg (normReq r) (seen0 kind (normReq r)) script)) := by
+  by_cases hf : r.found = true
+  · by_cases hb : r.payload = .bad
+    · right; left
+      exact ⟨by simp [Unanswered, hb], _, .error _ _ _ (Or.inl rfl), by simp [process_eq, hf, hb]; rfl⟩
+    · have hp : process cfg r script = match pick cfg (normReq r) with
+          | .noReplyAtAll => []
+          | .none => []
+          | .reply p => [.pub replySubj p]
+          | .invoke kind => finish (runScript cfg (normReq r) (seen0 kind (normReq r)) script) := by
+        rw [process_eq]; simp only [hf, hb, Bool.not_true, Bool.false_eq_true, if_false]
+      rcases pick_spec cfg (normReq r) with ⟨h, h1, h2⟩ | ⟨c, m, h⟩ | ⟨k, h⟩
+      · left; rw [h] at hp; exact ⟨⟨by simpa using h1, hf, hb, h2⟩, hp⟩
+      · right; left; rw [h] at hp
+        refine ⟨?_, _, .error _ _ _ (Or.inl rfl), hp⟩
+        rintro ⟨h1, _, _, h2⟩
+        simp [pick, h1, h2] at h
+      · right; right
+        refine ⟨?_, k, hf, hb, h, by rw [hp, h]⟩
+        rintro ⟨h1, _, _, h2⟩
+        simp [pick, h1, h2] at h
+  · right; left
+    exact ⟨by simp [Unanswered, hf], _, .error _ _ _ (Or.inl rfl), by simp [process_eq, hf]; rfl⟩
+
+/-! ## subject splitting -/
+
+theorem takeWhile_stop (p : Nat → Bool) (t x : Str) (d : Nat) (ht : ∀ c ∈ t, p c = true) (hd : p d = false) :
+    (t ++ d :: x).takeWhile p = t := by
+  induction t with
+  | nil => simp [hd]
+  | cons a t ih =>
+    have h1 : p a = true := ht a (by simp)
+    have h2 := ih (fun c hc => ht c (by simp [hc]))
+    rw [List.cons_append, List.takeWhile_cons, h1, if_pos rfl, h2]
+
+theorem splitSubject_plain (t rname : Str) (ht : ∀ c ∈ t, c ≠ 46) (h1 : t ≠ b!"call") (h2 : t ≠ b!"auth") :
+    splitSubject (t ++ 46 :: rname) = some (t, rname, []) := by
+  have e := takeWhile_stop (· ≠ 46) t rname 46 (by simpa using ht) (by simp)
+  simp only [splitSubject]
+  rw [e]
+  simp [h1, h2]
+
+theorem splitSubject_method (t rname m : Str) (ht : t = b!"call" ∨ t = b!"auth") (hm : ∀ c ∈ m, c ≠ 46) :
+    splitSubject (t ++ 46 :: rname ++ 46 :: m) = some (t, rname, m) := by
+  have ht' : ∀ c ∈ t, c ≠ 46 := by rcases ht with rfl | rfl <;> simp
+  have e1 : t ++ 46 :: rname ++ 46 :: m = t ++ 46 :: (rname ++ 46 :: m) := by simp
+  have e2 : (rname ++ 46 :: m).reverse = m.reverse ++ 46 :: rname.reverse := by simp
+  have e3 := takeWhile_stop (· ≠ 46) t (rname ++ 46 :: m) 46 (by simpa using ht') (by simp)
+  have e4 := takeWhile_stop (· ≠ 46) m.reverse rname.reverse 46 (by simpa using hm) (by simp)
+  rw [e1]
+  simp only [splitSubject]
+  rw [e3]
+  simp only [List.length_append, List.length_cons]
+  have e5 : List.drop (t.length + 1) (t ++ 46 :: (rname ++ 46 :: m)) = rname ++ 46 :: m := by
+    rw [List.drop_append]; simp
+  rw [e5, e2, e4]
+  have e6 : List.drop (m.reverse.length + 1) (m.reverse ++ 46 :: rname.reverse) = rname.reverse := by
+    rw [List.drop_append]; simp
+  rw [e6]
+  simp [ht]
+  omega
+
+/-! ## `process` for an invoked handler -/
+theorem process_invoke {cfg : HCfg} {r : ReqIn} {kind : String} (script : List Action)
+    (hf : r.found = true) (hb : r.payload ≠ .bad) (hk : pick cfg (normReq r) = .invoke kind) :
+    process cfg r script = finish (runScript cfg (normReq r) (seen0 kind (normReq r)) script) := by
+  rw [process_eq]; simp only [hf, hb, Bool.not_true, Bool.false_eq_true, if_false, hk]
+
+theorem runScript_extends (cfg : HCfg) (r : ReqIn) (s : St) (script : List Action) :
+    ∃ d, (stepSt (runScript cfg r s script)).effs = s.effs ++ d := by
+  refine runScript_next cfg r (fun s' => ∃ d, s'.effs = s.effs ++ d) ?_ script s ⟨[], by simp⟩
+  rintro s1 s2 hn ⟨d, hd⟩
+  obtain ⟨d', hd'⟩ := hn.extends
+  exact ⟨d ++ d', by rw [hd', hd, List.append_assoc]⟩
+
+theorem finish_extends (st : Step) : ∃ d, finish st = (stepSt st).effs ++ d := by
+  rcases finish_cases st with ⟨_, h⟩ | ⟨_, p, _, h⟩
+  · exact ⟨[], by simp [h]⟩
+  · exact ⟨_, h⟩
+
+theorem finish_replied {st : Step} (h : (stepSt st).replied = true) : finish st = (stepSt st).effs := by
+  rcases finish_cases st with ⟨_, h'⟩ | ⟨h', _⟩
+  · exact h'
+  · simp [h] at h'
+
+theorem runScript_after_reply (cfg : HCfg) (r : ReqIn) (s : St) (script : List Action) (hr : s.replied = true) :
+    responses (stepSt (runScript cfg r s script)).effs = responses s.effs ∧
+      (stepSt (runScript cfg r s script)).replied = true := by
+  refine runScript_next cfg r (fun s' => responses s'.effs = responses s.effs ∧ s'.replied = true) ?_ script s ⟨rfl, hr⟩
+  rintro s1 s2 hn ⟨h1, h2⟩
+  obtain ⟨h3, h4⟩ := hn.after_reply h2
+  exact ⟨h3.trans h1, h4⟩
+
+theorem responses_finish_replied (cfg : HCfg) (r : ReqIn) (s : St) (script : List Action) (hr : s.replied = true) :
+    responses (finish (runScript cfg r s script)) = responses s.effs := by
+  obtain ⟨h1, h2⟩ := runScript_after_reply cfg r s script hr
+  rw [finish_replied h2, h1]
+
+theorem responses_seen_reply (d p : Str) (h : isPre p = false) : responses [.seen d, .pub replySubj p] = [p] := by
+  simp [responses, h]
+
+
+/-! ## exactly one response -/
+theorem replyInv_seen0 (kind : String) (r : ReqIn) : ReplyInv (seen0 kind r) := by
+  simp [ReplyInv, seen0, responses]
+
+theorem runScript_inv (cfg : HCfg) (r : ReqIn) (s : St) (script : List Action) (h : ReplyInv s) :
+    ReplyInv (stepSt (runScript cfg r s script)) :=
+  runScript_next cfg r ReplyInv (fun _ _ hn hi => hn.inv hi) script s h
+
+theorem responses_finish_length (cfg : HCfg) (r : ReqIn) (s : St) (script : List Action) (h : ReplyInv s) :
+    (responses (finish (runScript cfg r s script))).length = 1 := by
+  have hi := runScript_inv cfg r s script h
+  rcases finish_cases (runScript cfg r s script) with ⟨h1, h2⟩ | ⟨h1, p, hp, h2⟩
+  · rw [h2, hi, h1]; rfl
+  · rw [h2, responses_append, responses_reply p hp.isPre, List.length_append, hi, h1]; rfl
+
+theorem responses_take_length_le (log : List Eff) (k : Nat) :
+    (responses (log.take k)).length ≤ (responses log).length := by
+  have h : log = log.take k ++ log.drop k := (List.take_append_drop k log).symm
+  conv => rhs; rw [h, responses_append, List.length_append]
+  exact Nat.le_add_right _ _
+
 end GoRes.Req
